@@ -421,11 +421,11 @@ type Input struct {
 	NoReturn   bool   `json:"no_returning"`         // dialector without RETURNING
 	MapPtr     bool   `json:"map_ptr,omitempty"`    // create_map: Create(&m); create_maps: Create(ms) by value
 	BatchMode  string `json:"batch_mode,omitempty"` // create_batch: "" CreateInBatches/Create | session: Session{CreateBatchSize}
-	Returning  bool   `json:"returning,omitempty"`
+	Returning  bool   `json:"returning,omitempty"`  // updates: Clauses(clause.Returning{}) on the chain
 	// CloneStep: what stands between Select/Omit and the finisher: "" nothing | session Session(&Session{}) |
 	// ctx WithContext | tx Begin() ... Commit() ; CloneAt: "end" after Omit | "mid" between Model/Where and Select
 	CloneStep string `json:"clone_step,omitempty"`
-	CloneAt   string `json:"clone_at,omitempty"` // updates: Clauses(clause.Returning{}) on the chain
+	CloneAt   string `json:"clone_at,omitempty"`
 	Attrs     *Row   `json:"attrs,omitempty"`
 }
 type Cell struct {
@@ -477,6 +477,15 @@ func payValue(f FDesc, j int, zero bool) interface{} {
 		return time.Time{}
 	}
 	return base.Add(time.Duration(700+j) * time.Second)
+}
+
+// mapValue: the value a map payload (or Update(col, v)) carries for field j: like the struct payload, the zero
+// value of a *time.Time field is the nil pointer
+func mapValue(f FDesc, j int, zero bool) interface{} {
+	if zero && f.GoType == "ptime" {
+		return (*time.Time)(nil)
+	}
+	return payValue(f, j, zero)
 }
 
 // payRepr: how the payload's value of field j reads back (the zero value of a *time.Time is NULL)
@@ -703,7 +712,7 @@ func buildMap(t TDesc, r Row) map[string]interface{} {
 		if pv.Spell == "field" {
 			k = f.Name
 		}
-		m[k] = formed(pv, payValue(f, pv.Field, pv.Zero))
+		m[k] = formed(pv, mapValue(f, pv.Field, pv.Zero))
 	}
 	return m
 }
@@ -900,7 +909,7 @@ func run(e *env, in Input) (o Obs) {
 		if pv.Spell == "field" {
 			k = f.Name
 		}
-		res = tx.Update(k, formed(pv, payValue(f, pv.Field, pv.Zero)))
+		res = tx.Update(k, formed(pv, mapValue(f, pv.Field, pv.Zero)))
 	case "update_column":
 		pv := in.Rows[0].PV[0]
 		f := t.Fields[pv.Field]
@@ -908,7 +917,7 @@ func run(e *env, in Input) (o Obs) {
 		if pv.Spell == "field" {
 			k = f.Name
 		}
-		res = tx.UpdateColumn(k, formed(pv, payValue(f, pv.Field, pv.Zero)))
+		res = tx.UpdateColumn(k, formed(pv, mapValue(f, pv.Field, pv.Zero)))
 	case "updates_struct", "update_columns_struct":
 		p := buildStruct(t, in.Rows[0])
 		var arg interface{} = p.Elem().Interface()
@@ -1233,8 +1242,8 @@ func mapRow(r *lib.Rng, t TDesc, id int64, n int, edge bool) Row {
 		if !hasColumn(f) && !(mapRowUpdate && edge) {
 			continue // map keys name existing columns (a column-less field may be named, by its Go name, in updates)
 		}
-		if f.Auto != "" && !(edge && r.Chance(1, 4)) {
-			continue
+		if f.Auto != "" && !(edge && r.Chance(1, 4)) && !r.Chance(1, 6) {
+			continue // a map names a tracked time field now and then (more often in the edge stream)
 		}
 		cand = append(cand, j)
 	}
@@ -1573,7 +1582,9 @@ func genInput(r *lib.Rng, edge bool, dyn *Input) Input {
 	}
 	// dimensions independent of the finisher
 	in.NoReturn = r.Chance(1, 3)
-	if r.Chance(2, 5) { // a statement-cloning step between the chain and the finisher
+	// a statement-cloning step between the chain and the finisher; more often before the finishers that extend the
+	// Select list themselves (Save)
+	if r.Chance(2, 5) || (strings.HasPrefix(in.Kind, "save") && r.Chance(1, 3)) {
 		in.CloneStep = lib.Pick(r, []string{"session", "ctx", "tx"})
 		in.CloneAt = lib.Pick(r, []string{"end", "end", "mid"})
 	}
